@@ -226,8 +226,9 @@ func (fr *frame) execInstr(b *ssa.BasicBlock, ins ssa.Instruction, g *Term) *Ter
 		}
 		fr.defers = append(fr.defers, deferRec{g: g, call: x, fv: fv, args: args})
 	case *ssa.RunDefers:
+		// every return site has its own RunDefers; the paths through them are mutually exclusive,
+		// so the recorded defers run at each site under that site's guard
 		ds := fr.defers
-		fr.defers = nil
 		for i := len(ds) - 1; i >= 0; i-- {
 			d := ds[i]
 			dg := prune(And(g, d.g))
